@@ -244,6 +244,11 @@ def gen_map_case(rng, start="inproc"):
             "inp": rng.choice(["regular", "regular", "shared", "memmap"]),
             "fn": rng.choice(["rows", "rows", "chunk", "chunk", "mixed", "mixed", "none_inplace", "mixed_inplace"]),
             "salt": rng.randrange(0, 1000), "delay": "none", "start": start}
+    if start == "inproc" and rng.random() < 0.1:
+        # the same content as a lazy stack along dim 0 (tensordict/_lazy.py: split / chunk / unbind / indexing of lazy stacks)
+        case["lazy"] = True
+        case["inp"] = "regular"
+        case["fn"] = rng.choice(["rows", "chunk", "mixed"])
     if rng.random() < 0.2:
         case["iter"] = True
         case["out"] = "none"
@@ -271,6 +276,8 @@ def run_inproc_maps(R, cases):
         R.case(case_key(case), nontrivial=len(exp["pieces"]) > 1, sample=case if ci % 997 == 0 else None)
         R.count("map:" + ("iter" if case.get("iter") else "out=" + case.get("out", "none")))
         R.count("fn:" + case["fn"])
+        if case.get("lazy"):
+            R.count("map:lazy-stack-input")
         R.count("mode:" + ("chunksize0" if case["chunksize"] == 0 else "chunksize" if case["chunksize"] is not None else
                            "num_chunks" if case["num_chunks"] is not None else "default") + ("+gen" if case["gen"] else ""))
         judge_map(R, case, obs, exp, "inproc")
@@ -724,7 +731,10 @@ def apply_signature(case):
     return {"call": "_multithread_apply_nest",
             "out_with_nested_result": bool(case["out"] and not case["con"] and nonnone_nested(spec, noneset, fe)),
             "default_below_root": bool(below and not case["con"]),
-            "filter_empty_none_all_none_subtree": bool(fe is None and not case["con"] and all_none_subtree(spec, noneset)),
+            "filter_empty_none_all_none_subtree": bool(fe is None and (
+                all_none_subtree(spec, noneset) if not case["con"]
+                # call_on_nested: every root entry is a task; the function returns a tensordict for nested entries
+                else (len(spec) > 0 and all((not isinstance(v, list)) and v in noneset for _, v in spec)))),
             "names_with_nested": bool(case["names"] and has_node(spec) and not case["con"])}
 
 
@@ -784,7 +794,7 @@ def strip(o):
 
 def check_apply(R):
     rng = R.rng
-    ncases = int(os.environ.get("C12_NAPPLY", 600 if R.quick else 4000))
+    ncases = int(os.environ.get("C12_NAPPLY", 800 if R.quick else 6000))
     mlines, mobs, mcap = [], [], (6000 if R.quick else 120000)
     for ci in range(ncases):
         nleaves = rng.choice([1, 2, 2, 3, 3, 4, 4, 5, 5, 6, 7, 8]) if ci % 4 else rng.choice([3, 4, 5])
@@ -948,7 +958,7 @@ def writer_model_line(case, sched, obs):
     order, eager = sched
     if op.startswith("consolidate"):
         n = len(tree_leaves(spec))
-        lids = [v // 1000 for v in obs["storage"][::6]]       # every chunk starts with leaf_id * 1000
+        lids = tree_leaves(spec)                              # the flat (depth-first) order of the entries
         chunks = [[lid * 1000 + j for j in range(6)] for lid in lids]
         ws = [[6 * i, chunks[i]] for i in obs["ran"] if i < n]
         return sx([Sym("run-assign"), ws, [0] * (6 * n)]), ("assign", obs["storage"])
@@ -978,7 +988,7 @@ def writer_model_line(case, sched, obs):
 
 def check_writers(R):
     rng = R.rng
-    ncases = int(os.environ.get("C12_NWRITERS", 120 if R.quick else 1000))
+    ncases = int(os.environ.get("C12_NWRITERS", 300 if R.quick else 3000))
     wlines, wobs = [], []
     for ci in range(ncases):
         nleaves = rng.choice([1, 2, 3, 3, 4, 4, 5, 6])
@@ -1007,7 +1017,7 @@ def check_writers(R):
                 wlines.append(line)
                 wobs.append((dict(case, schedule={"order": order, "eager": eager}), want))
             if strip_w(mt) != strip_w(st):
-                what = "status" if mt["status"] != st["status"] else next(k for k in mt if k in st and mt[k] != st[k] and k not in ("never_run", "nran", "key_order"))
+                what = "status" if mt["status"] != st["status"] else next(k for k in strip_w(mt) if strip_w(mt)[k] != strip_w(st).get(k))
                 R.oracle_fail("mt-writer:differs-from-single-thread", dict(case, schedule={"order": order, "eager": eager}),
                               {"what": what, "single": st.get(what, st.get("exc")), "multi": mt.get(what, mt.get("exc"))}, dict(sig, kind="differs"))
                 break
@@ -1161,7 +1171,7 @@ def main(R):
         check_shuffle(R)
         tm["split_s"] = round(time.time() - t, 1)
         t = time.time()
-        cases = [gen_map_case(rng) for _ in range(3000 if R.quick else 40000)]
+        cases = [gen_map_case(rng) for _ in range(6000 if R.quick else 60000)]
         observations = run_inproc_maps(R, cases)
         compare_map_model(R, cases, observations)
         tm["inproc_maps_s"] = round(time.time() - t, 1)
@@ -1221,7 +1231,13 @@ def replay(body):
     elif op in ("td-split", "td-chunk"):
         print("model:", run_model(PID, [sx([Sym(op), case["n"], case["k"]])]))
     elif op == "shuffle":
-        print("re-run with the same seed; model: shuffle_pieces of the observed permutation")
+        x, w = M.make_leaves([case["n"]])
+        td = M.td_from(x, w, [case["n"]])
+        got = call(lambda: [p["x"].reshape(-1).tolist() for p in TU._split_tensordict(td, case["chunksize"], case["num_chunks"], case["workers"], 0,
+                                                                                      use_generator=True, shuffle=True)])
+        print("pieces of a fresh shuffled run:", got[1], "; sizes wanted:", spec_sizes(case["n"], case["chunksize"], case["num_chunks"], case["workers"]))
+        if got[0] == "ok":
+            print("model on that permutation:", run_model(PID, [sx([Sym("shuffle"), [v for p in got[1] for v in p], some(case["chunksize"]), some(case["num_chunks"]), case["workers"]])]))
     elif op == "apply":
         sched = case.get("schedule") or {"order": [], "eager": []}
         st = run_apply(case, None)
